@@ -9,6 +9,22 @@ REGISTRY = {
         "note": "Trusted: z3, CrossHair's int/bool modelling, CPython C containers; representation invariant R (re-asserted after each step). Outside: queues >3, >4 borrowers, trio backend, uvloop.",
     },
 }
+REGISTRY["C20"] = {
+    "harnesses": ["symx.harness.c20_lru"],
+    "level": "model_checking",
+    "text": "Bounded symbolic model checking of the real AsyncLRUCacheWrapper on the real asyncio loop logic with a virtual clock: start instants, run times, "
+            "failure flags, cancel instants (tick and cycle offset), maxsize, ttl and key sequences are symbolic, every feasible ordering is executed once; "
+            "sequential histories are compared with an exact LRU+ttl reference model and with functools.lru_cache.",
+    "note": "Trusted: z3, CrossHair, CPython's C Task/Future/OrderedDict, the VLoop stubs (selector, clock). Outside: >4 concurrent callers, >5 sequential calls, kwargs/method descriptors, uvloop, trio.",
+}
+REGISTRY["C07"] = {
+    "harnesses": ["symx.harness.c07_start"],
+    "level": "model_checking",
+    "text": "Bounded symbolic model checking of the real TaskGroup.start()/task_done/_AsyncioTaskStatus code on the real asyncio loop logic with a virtual clock: "
+            "child timing (pre/post sleeps), the started value and the instant (tick + cycle offset) at which the caller's or the group's scope is cancelled are symbolic; "
+            "child behaviour / cleanup behaviour / cancel kind are a finite case split; every feasible ordering is executed and checked against the handshake oracle.",
+    "note": "Trusted: z3, CrossHair, CPython's C Task/Future, VLoop stubs. Outside: several start() children at once, uvloop, trio.",
+}
 
 NOT_APPLICABLE = {
     "C17": "TLS record framing/fragmentation/truncation happens inside OpenSSL (ssl.SSLObject/MemoryBIO, C code): no available engine can execute it symbolically, and a stub would make the check a statement about the stub (DESIGN.md section 3, C17).",
